@@ -326,7 +326,12 @@ def exportable(draw, depth=2, tail=True, allow_known=False):
         names[0] += 1
         return "%s%d" % (p, names[0])
 
+    strs = []
+
     def leaf(ints):
+        if strs and draw(st.integers(0, 5)) == 0:
+            # a condition on a text member compared with a string literal (the literal must stay a literal in the schema)
+            return ["if", ["bin", draw(st.sampled_from(["==", "!="])), ["this", [draw(st.sampled_from(strs))], "attr"], ["const", draw(st.sampled_from(["a", "ab", "", "zz"]))]], B1]
         opts = ["int", "int", "float", "varint", "bytes", "bytesref", "pstr", "pascal", "cstr", "flag", "const", "constint", "constframed", "padding", "padded", "rebuild", "default", "hex",
                 "array", "arrayref", "parray", "prefixed", "fixedsized", "runtil", "docs", "pass", "if", "bitstruct"]
         if allow_known:
@@ -454,6 +459,8 @@ def exportable(draw, depth=2, tail=True, allow_known=False):
             members.append([None if anonymous else name, sp])
             if sp[0] == "int" and not sp[2] and not anonymous:
                 ints.append(name)
+            if sp[0] == "pstr" and not anonymous and d == depth:
+                strs.append(name)
         return ["struct", members]
     spec = struct(depth, tail)
     params = {}
